@@ -89,6 +89,15 @@ Theorem C03_void_returns_none : forall m,
 Proof. exact void_returns_none. Qed.
 Print Assumptions C03_void_returns_none.
 
+(* the statement "a streaming RPC hands every reply to the caller" fails for streams of google.protobuf.Empty:
+   the templates test only method.void (reported finding stubs.streaming_empty_response_treated_as_void) *)
+Theorem C03_stream_delivers_all_refuted :
+  exists m replies, me_ss m = true /\ me_void m = true /\ replies <> [] /\
+    client_result m replies <> RetStream replies /\ client_result m replies = RetNone /\
+    (forall v, c_assigned (call_of v m) = false /\ c_returns (call_of v m) = false /\ c_awaited (call_of v m) = false).
+Proof. exact stream_delivers_all_refuted. Qed.
+Print Assumptions C03_stream_delivers_all_refuted.
+
 Theorem C03_plain_returns_reply : forall m,
   me_void m = false ->
   (forall v, c_assigned (call_of v m) = true /\ c_returns (call_of v m) = true) /\
